@@ -650,6 +650,36 @@ def gcc_replay(cpath, mdir, vals):
     return (rc == 1 and "FAILED:" in out), out[-400:]
 
 
+def helper_checks():
+    """The C helper snippets alone (used by C15: they are the C side of callbacks and iterators). Returns
+    {"failed": [...], "props": n, "secs": s, "error": str|None, "harness": path}."""
+    os.makedirs(WORK, exist_ok=True)
+    try:
+        binp = build_tool()
+    except Exception as e:
+        return {"failed": [], "props": 0, "secs": 0.0, "error": str(e), "harness": None}
+    model = [m for m in models("quick", 0) if m["id"] == "obj_box_arc"][0]
+    mdir = os.path.join(WORK, "helpers")
+    raw, types = synth(model)
+    outp, err = run_tool(binp, raw, model, mdir)
+    if err:
+        return {"failed": [], "props": 0, "secs": 0.0, "error": err, "harness": None}
+    ws = parse_wrappers(open(outp).read())
+    hsrc, tests, missing = gen_harness(model, types, outp, ws)
+    cpath = os.path.join(mdir, "harness.c")
+    open(cpath, "w").write(hsrc)
+    res = run_cbmc(cpath, mdir)
+    helper = [f for f in res["failed"] if f["desc"].startswith(("buffer iterator", "static collect")) or "buf_iter_next" in f["id"]
+              or "cb_collect" in f["id"]]
+    replayed = []
+    for f in helper:
+        vals = trace_values(res["out"], f["desc"])
+        ok, out = gcc_replay(cpath, mdir, vals)
+        replayed.append({"check": f, "inputs": vals, "gcc_replay_fails": ok, "gcc_output": out})
+    return {"failed": replayed, "props": res["props"], "secs": res["secs"], "error": None if res["decided"] else res["out"][-300:],
+            "harness": cpath, "has_helper_tests": any(t[0].startswith("test_helper") for t in tests)}
+
+
 def main(prop="C17", tier="quick"):
     import vf
     t0 = time.time()
